@@ -526,6 +526,37 @@ def run(tier, seed, replay):
         rw = np.asarray(r.runs_weights).ravel() if hasattr(r, "runs_weights") else None
         if rw is not None and w is not None and abs(sum(rw) + w[0] - 1) > 1e-9:
             v("improved-sampling:weights", f"weights sum to {sum(rw) + w[0]}")
+    # ------------------------------------------------------------------ non-Markovian variant with improved sampling: the no-jump trajectory
+    # enters every average, the final state included, with its weight times its trace (martingale)
+    def nm_rate_neg(t):
+        return 0.4 - 0.7 * np.sin(3.0 * t) ** 2
+    for keep in (False, True):
+        try:
+            Hn = 0.5 * qutip.sigmaz() + 0.2 * qutip.sigmax()
+            ops_rates = [(qutip.sigmam(), qutip.coefficient(nm_rate_neg)), (qutip.sigmaz(), 0.3)]
+            psin = (qutip.basis(2, 0) + 0.5j * qutip.basis(2, 1)).unit()
+            tln = np.linspace(0, 1.5, 5)
+            base_o = {"progress_bar": "", "improved_sampling": True, "keep_runs_results": keep}
+            with warnings.catch_warnings():
+                warnings.simplefilter("ignore")
+                with core.time_limit(300):
+                    r_fin = qutip.nm_mcsolve(Hn, psin, tln, ops_rates, e_ops=[qutip.sigmaz()], ntraj=12, seeds=4321, options=dict(base_o, store_states=False, store_final_state=True))
+                    r_all = qutip.nm_mcsolve(Hn, psin, tln, ops_rates, e_ops=[qutip.sigmaz()], ntraj=12, seeds=4321, options=dict(base_o, store_states=True))
+            rep.evaluations += 1
+            rep.count("nm-improved-sampling-final")
+            fs = r_fin.average_final_state
+            dfin = (fs - r_all.average_states[-1]).norm()
+            if dfin > 1e-9:
+                v("nm-improved-sampling:final-state", f"nm_mcsolve with improved sampling (keep_runs_results={keep}): the averaged final state differs from the last averaged state of the same-seed run by {dfin:.2e}", {"keep": keep})
+            if abs(fs.tr() - np.asarray(r_fin.average_trace)[-1]) > 1e-9:
+                v("nm-improved-sampling:final-trace", f"nm_mcsolve with improved sampling (keep_runs_results={keep}): trace of the averaged final state {fs.tr()} is not the averaged trace {np.asarray(r_fin.average_trace)[-1]}", {"keep": keep})
+            ez = float(np.real(qutip.expect(qutip.sigmaz(), fs)))
+            if abs(ez - float(np.real(r_fin.average_expect[0][-1]))) > 1e-9:
+                v("nm-improved-sampling:final-expect", f"nm_mcsolve with improved sampling (keep_runs_results={keep}): <sz> of the averaged final state {ez} is not the last averaged expectation value {r_fin.average_expect[0][-1]}", {"keep": keep})
+        except core.CaseTimeout:
+            raise
+        except Exception as e:
+            v("nm-improved-sampling:raises", f"{type(e).__name__}: {e}"[:200])
     # ------------------------------------------------------------------ Liouvillian form, density-matrix and mixed initial states
     other_forms(rep, rng, tier, v)
     # ------------------------------------------------------------------ non-Markovian: arguments at construction or at run time
